@@ -5,6 +5,8 @@ Require Import Coq.Arith.Arith.
 Require Import Urcu.ListDl.ListDl.
 Require Import Urcu.ListDl.ListDlProof.
 Require Import Urcu.BpArena.BpArena.
+Require Import Urcu.Gp.GpMbDyn.
+Require Import Urcu.Gp.GpMbDynExec.
 Import ListNotations.
 
 (* cds_list_add(x, h) (rcu_register_thread): x becomes the first element of h's ring, for every ring and every memory *)
@@ -88,4 +90,18 @@ Theorem C15_bp_alloc_never_null :
     forall INIT : nat, 0 < INIT -> forall (a : arena) (ok : bool), wf a -> snd (alloc INIT a ok) <> None.
 Proof. exact (@Urcu.BpArena.BpArena.alloc_never_null). Qed.
 Print Assumptions C15_bp_alloc_never_null.
+
+(* mb flavor on TSO with threads registering and unregistering at any moment relative to the grace period, any number of times (idle, under the registry mutex): when a grace period ends, no reader that was registered and inside a section when it began is still in that section - for every schedule, any number of readers and nesting depth *)
+Theorem C15_gp_with_dynamic_registry :
+    forall s : state, reach init s -> ph s = U_Idle -> forall r : nat, old_open (rd s r) = false.
+Proof. exact (@Urcu.Gp.GpMbDyn.gp_mbdyn_waits_for_preexisting_readers). Qed.
+Print Assumptions C15_gp_with_dynamic_registry.
+
+(* every action sequence accepted by the executable interpreter (the one the projected traces of src/urcu.c with register / unregister operations are fed to) is a run of that model *)
+Theorem C15_accepted_dynamic_trace_satisfies_gp :
+    forall (regs : list nat) (l : list mact) (s' : state),
+    mrun regs l init = Some s' ->
+    reach init s' /\ (ph s' = U_Idle -> forall r : nat, old_open (rd s' r) = false).
+Proof. exact (@Urcu.Gp.GpMbDynExec.accepted_mbdyn_trace_satisfies_gp). Qed.
+Print Assumptions C15_accepted_dynamic_trace_satisfies_gp.
 
